@@ -35,6 +35,7 @@ package pogreb
 //@   ensures inv: dlInv(dl) && dlSealedDurable(dl)
 //@   ensures [C15] usable: err != nil ==> isIOErr(err)
 //@   ensures mono: fDur[fidOf[dl.curSeg.file.File]] >= old(fDur[fidOf[dl.curSeg.file.File]])
+//@   ensures noop: dl.segments[dl.curSeg.id] != dl.curSeg ==> fDur[fidOf[dl.curSeg.file.File]] == old(fDur[fidOf[dl.curSeg.file.File]])
 //@   modifies fDur[fidOf[dl.curSeg.file.File]]
 
 //@ func (dl *datalog) removeSegment(seg *segment) (err error) [C05,C06,C15]
